@@ -195,6 +195,8 @@ type Engine struct {
 	lazyObjs []lazyObj
 	maxPaths int
 	crcExact int
+	noSlice  bool
+	lazy     int // >0: inside a merged sub-exploration: byte-local branch conditions fork without a feasibility query
 }
 
 func (e *Engine) freshName(prefix string) string {
@@ -574,7 +576,12 @@ func (e *Engine) checkSat(s *State, extra ...*Term) string {
 			return "unsat"
 		}
 	}
-	r := e.solver.Check(append(append([]*Term{}, s.pc...), extra...)...)
+	if e.noSlice {
+		r := e.solver.Check(append(append([]*Term{}, s.pc...), extra...)...)
+		e.solver.Done()
+		return r
+	}
+	r := e.solver.CheckFlat(append(sliceFor(s.pc, extra), extra...)...)
 	e.solver.Done()
 	return r
 }
@@ -1041,10 +1048,12 @@ func (e *Engine) step(s *State) []*State {
 			e.gotoBlock(s, f, f.blk.Succs[1])
 			return nil
 		}
-		tf := e.feasible(s, c)
-		ff := true
-		if tf {
-			ff = e.feasible(s, Not(c))
+		tf, ff := true, true
+		if !(e.lazy > 0 && isByteCond(c)) {
+			tf = e.feasible(s, c)
+			if tf {
+				ff = e.feasible(s, Not(c))
+			}
 		}
 		switch {
 		case tf && ff:
@@ -1722,4 +1731,22 @@ func (s *State) sortedHeapIDs() []int {
 	}
 	sort.Ints(ids)
 	return ids
+}
+
+// isByteCond: the condition only compares 8-bit terms. Such a condition cannot bound a loop with a symbolic
+// trip count (counters and lengths are 64-bit), so forking on it without asking the solver cannot lead to
+// unbounded unrolling; infeasible arms end up as unsatisfiable disjuncts of the merged path condition.
+func isByteCond(c *Term) bool {
+	switch c.Op {
+	case "not", "and", "or":
+		for _, a := range c.Args {
+			if !isByteCond(a) {
+				return false
+			}
+		}
+		return true
+	case "=", "bvult", "bvslt":
+		return c.Args[0].W == 8
+	}
+	return false
 }
